@@ -73,6 +73,7 @@ func (s *sim) callF(x int) int {
 	s.say("oeff_f aus %s", L)
 	s.say("priv_f aus %s", L)
 	s.say("gem_f aus %s", L)
+	s.say("%d", cPrivOp(x))
 	return fReturn(x, s.oeffV[x])
 }
 
@@ -168,6 +169,7 @@ func Predict(g Graph) Prediction {
 	s.say("%d", cPrivK(0))
 	s.say("%d", cGemV(0))
 	s.say("%d", cPTPrivFeld(0))
+	s.say("2") // die Länge von (1 verkettet mit 2): no private overload of a library module applies in main
 	tag("val")
 	s.say("ende")
 	tag("end")
